@@ -122,7 +122,7 @@ def oracle(ctx, only=None):
                     if np.count_nonzero(m.f2t[1] != -1) > 0:
                         break
                 parent = None
-                if mk == 'novalidate':
+                if mk in ('novalidate', 'derived', 'init'):
                     c03_oracle.check_sorted(m, desc, ctx.fail)
                 if mk == 'adaptive':
                     c03_oracle.check_sorted(m, desc, ctx.fail)
@@ -156,10 +156,34 @@ def oracle(ctx, only=None):
                 cls = 'global' if 'tol' in opt else 'reference'
                 worst[cls] = max(worst.get(cls, 0.0), w if w < 1e-3 else 0.0)
         secs[label] = round(time.time() - t0, 2)
+    ctx.extra['api_coverage'] = API_COVERAGE
     ctx.extra['max_scaled_jump_passing'] = worst
     ctx.extra['tolerance'] = {'reference-defined elements': c03_oracle.TOL, 'ElementGlobal family': c03_oracle.GLOBAL_TOL}
     ctx.extra['oracle_seconds'] = secs
     ctx.sample({'kind': 'oracle', 'elements': len(C), 'max_scaled_jump_passing': worst})
+
+
+# public mesh-producing / basis-producing callables of the anchor files (mesh.py, mesh_tri_1.py, mesh_simplex.py, dofs.py,
+# facet_basis.py, interior_facet_basis.py), measured by running the oracle under sys.setprofile (coverage audit)
+API_COVERAGE = [
+    {'callable': 'default constructors Mesh*(p, t) incl. validate=False, sort_t=False; MeshTri2/Quad2/Tet2/Hex2.from_mesh; init_tensor; '
+                 'MeshTri * MeshLine (wedge)', 'before': 'covered', 'now': 'covered'},
+    {'callable': 'Mesh.refined(int) / refined(marked), with_subdomains, with_boundaries, with_defaults, translated, scaled, oriented',
+     'before': 'covered', 'now': 'covered (before and after refinement, parent re-used)'},
+    {'callable': 'Mesh.mirrored, morphed, smoothed, restrict, remove_elements, remove_unused_nodes, remove_duplicate_nodes, copy, '
+                 'to_dict/from_dict, save_npz/load_npz', 'before': 'not covered',
+     'now': 'covered: mesh kind "derived" for every triangle / tetrahedron / quadrilateral / hexahedron claim, sortedness tie on MeshTri1'},
+    {'callable': 'MeshTri.init_symmetric / init_sqsymmetric / init_lshaped / init_circle / init_refdom, MeshTri2.init_circle, '
+                 'MeshTet.init_ball / init_refdom, MeshTet2.init_ball, MeshQuad/MeshHex.init_refdom', 'before': 'not covered',
+     'now': 'covered: mesh kind "init"'},
+    {'callable': 'InteriorFacetBasis(side=0/1, quadrature=...), FacetBasis.__init__, Dofs.__init__, AbstractBasis.interpolate, '
+                 'ElementHcurl/ElementHdiv.orient', 'before': 'covered', 'now': 'covered'},
+    {'callable': 'Mesh.save / load (meshio files)', 'before': 'not covered', 'now': 'not covered: file formats are C17; the in-memory '
+                 'round trips to_dict/from_dict and npz are covered'},
+    {'callable': 'Mesh.trace, CellBasis.boundary, FacetBasis.trace / project, Mesh.facets_around, nodes_satisfying, element_finder, '
+                 'p2f/p2t/p2e/e2t, boundary_*/interior_nodes, normalize_*, is_valid, plot/draw; DofsView.*, Dofs.get_*_dofs',
+     'before': 'not covered', 'now': 'out of scope for C03: boundary traces, point location, incidence tables (C11), DOF queries (C07)'},
+]
 
 
 # ------------------------------------------------------------------------------ the check
